@@ -201,7 +201,7 @@ func init() {
 			"ALL interleavings with <=2 deviations (thorough: 3); at the instant Shutdown returns the query results and the device image are captured atomically, the server is restarted on that image through the real startup path and queried again. " +
 			"oracle: equal results, every write acknowledged before Shutdown returned present, no variable record duplicated. non-trivial = schedules with >=1 deviation",
 		Assume:   []string{"the process exits when Shutdown returns (cmd/start): threads still running then are cut off", "UTC"},
-		QuickMax: 8 * time.Minute, ThorMax: 45 * time.Minute,
+		QuickMax: 8 * time.Minute, ThorMax: 25 * time.Minute,
 	}, schedEnum(c35Scens, func(c *mc.Ctx, si int) int {
 		if c.Thorough() {
 			return 3
